@@ -239,6 +239,22 @@ pub fn supported_test() -> BoxedStrategy<Tst> {
     .boxed()
 }
 
+/// values that only a hand-built tree can carry (the parser never returns them)
+pub fn handbuilt_only_test() -> BoxedStrategy<Tst> {
+    prop_oneof![
+        Just(Tst::Type(vec![])),
+        (pkind(), prop::sample::select(vec![0o10000u32, 0o17777, 0o100644, 0o170000, u32::MAX])).prop_map(|(k, m)| Tst::Perm(k, m)),
+        Just(Tst::Name(String::new())),
+        Just(Tst::IName(String::new())),
+        Just(Tst::Path(String::new())),
+        Just(Tst::Pool(String::new())),
+        Just(Tst::Xattr(String::new())),
+        Just(Tst::XattrMatch(String::new(), String::new())),
+        (cmp(), sunit()).prop_map(|(c, u)| Tst::Size(c, u64::MAX / u.bytes(), u)),
+    ]
+    .boxed()
+}
+
 pub fn unsupported_test() -> BoxedStrategy<Tst> {
     let s = || user_string(StrKind::Ident);
     prop_oneof![
